@@ -26,7 +26,7 @@
 (*    (ValidEq; the identity is excluded by the routine itself).           *)
 (***************************************************************************)
 EXTENDS CurveXB, FiniteSets, TLC
-CONSTANTS p, usq, r, tr, xabs, xneg, fam, n2
+CONSTANTS p, usq, r, trabs, trneg, xabs, xneg, fam, n2   \* t = -trabs if trneg, x = -xabs if xneg
 VARIABLES b, c, ph
 
 P == BFromNat(p)
@@ -42,11 +42,12 @@ XiOk == /\ TExp(T, 1, Xi, BDiv(Q1, <<2>>)) # TOne(T, 1)
 
 (* #E_b(F_p) *)
 Count1(bb) == 1 + Cardinality({<<x, y>> \in F0 \X F0 : FSqr(y, P) = FAdd(FMul(FSqr(x, P), x, P), bb, P)})
-BOk(bb) == Count1(BFromNat(bb)) = p + 1 - tr
+BOk(bb) == Count1(BFromNat(bb)) = (IF trneg THEN p + 1 + trabs ELSE p + 1 - trabs)
 
 Init == b = 0 /\ c = 0 /\ ph = 0
-Next == \/ ph = 0 /\ (\E bb \in 1..(p - 1) : BOk(bb) /\ b' = bb) /\ c' = c /\ ph' = 1
-        \/ ph = 1 /\ b' = b /\ (\E cc \in 0..(p - 1) : c' = cc) /\ ph' = 2
+(* two steps (xi, then b) so that TLC's workers share the leaves *)
+Next == \/ ph = 0 /\ (\E cc \in 0..(p - 1) : c' = cc) /\ b' = b /\ ph' = 1
+        \/ ph = 1 /\ XiOk /\ c' = c /\ (\E bb \in 1..(p - 1) : BOk(bb) /\ b' = bb) /\ ph' = 2
 Spec == Init /\ [][Next]_<<b, c, ph>>
 
 B2(ty) == LET bb == <<BFromNat(b), <<>>>> IN
@@ -54,7 +55,8 @@ B2(ty) == LET bb == <<BFromNat(b), <<>>>> IN
 Crv(ty) == [T |-> T, k |-> 1, a |-> TZero(T, 1), b |-> B2(ty)]
 Squares == TLCEval({<<M(y, y), y>> : y \in F2})
 Points(cv) == LET sq == Squares IN
-              TLCEval(UNION {{XPt(x, s[2]) : s \in {t \in sq : t[1] = XRhs(x, cv)}} : x \in F2} \cup {XInf(cv)})
+              TLCEval(UNION {LET rh == XRhs(x, cv) IN {XPt(x, s[2]) : s \in {t \in sq : t[1] = rh}} : x \in F2}
+                      \cup {XInf(cv)})
 
 (* Frobenius constants as ep2_curve_set_twist derives them *)
 G2c(ty) == LET g == TExp(T, 1, Xi, BDiv(BSub(P, <<1>>), <<3>>)) IN IF ty = "M" THEN TInv(T, 1, g) ELSE g
@@ -64,7 +66,7 @@ RECURSIVE PsiK(_, _, _, _, _)
 PsiK(Q, g2, g3, cv, k) == IF k = 0 THEN Q ELSE PsiK(Psi(Q, g2, g3, cv), g2, g3, cv, k - 1)
 
 MulX(Q, cv) == XMulSB(xneg, BFromNat(xabs), Q, cv)
-TrMul(Q, cv) == XMulSB(tr < 0, BFromNat(IF tr < 0 THEN 0 - tr ELSE tr), Q, cv)
+TrMul(Q, cv) == XMulSB(trneg, BFromNat(trabs), Q, cv)
 
 (* ep2_mul_cof_bn / ep2_mul_cof_b12 as coded *)
 Cof(Q, g2, g3, cv) ==
@@ -119,9 +121,11 @@ OnTwist(ty) ==
         /\ \A Q \in pts \ {O} : ValidEqn(Q, g2, g3, cv) <=> Q \in sub
 
 Check ==
-    (ph = 2 /\ XiOk) =>
+    (ph = 2) =>
         LET nD == Cardinality(Points(Crv("D")))
             nM == Cardinality(Points(Crv("M")))
         IN  /\ (nD = n2) # (nM = n2)                              \* TwistOrder
             /\ OnTwist(IF nD = n2 THEN "D" ELSE "M")
+(* the model is not vacuous: some leaf is reached *)
+Reached == ph = 2
 =============================================================================
